@@ -178,7 +178,7 @@ pub fn comment_start(input: &mut LineReader) -> Parsed<(), ParseError> {
     }
 }
 
-pub fn comment_body<'a>(input: &'a mut LineReader) -> &'a BStr {
+pub fn comment_body<'a>(input: &'a mut LineReader) -> Result<&'a BStr, ParseError> {
     let mut offset = 0;
 
     while !matches!(
@@ -188,7 +188,12 @@ pub fn comment_body<'a>(input: &'a mut LineReader) -> &'a BStr {
         offset += 1;
     }
 
-    input.reader.advance_with_buf(offset).into()
+    if input.reader.request_byte_at_offset(offset).is_none() {
+        // A comment may end with the input, but not because of an IO error.
+        input.reader.check_io_error()?;
+    }
+
+    Ok(input.reader.advance_with_buf(offset).into())
 }
 
 #[inline]
